@@ -232,8 +232,37 @@ def _cst_for_new_shared_value_variables(
     values: Tuple[Any], names: List[str],
     pyval_to_cst: PyValToCstFunc) -> List[cst.CSTNode]:
   """Returns a list of `CSTNode`s for creating new shared value variables."""
+  # Variables are emitted in name order, except that a new shared value which
+  # refers to other new shared values has to come after them.
+  dependencies = []
+  for value in values:
+    referenced = set()
+
+    def collect_references(path, node, referenced=referenced):
+      del path  # Unused.
+      yield
+      if (
+          isinstance(node, diffing.Reference)
+          and node.root == 'new_shared_values'
+      ):
+        referenced.add(node.target[0].index)
+
+    daglish_legacy.traverse_with_path(collect_references, value)
+    dependencies.append(referenced)
+
+  pending = sorted(range(len(values)), key=lambda index: names[index])
+  ordered = []
+  while pending:
+    ready = [
+        index for index in pending if not dependencies[index] & set(pending)
+    ]
+    # (References that form a cycle can't be ordered: keep the name order.)
+    index = ready[0] if ready else pending[0]
+    ordered.append(index)
+    pending.remove(index)
+
   statements = []
-  for value, name in sorted(zip(values, names), key=lambda item: item[1]):
+  for value, name in [(values[index], names[index]) for index in ordered]:
     statements.append(
         cst.Assign(
             targets=[cst.AssignTarget(target=cst.Name(name))],
